@@ -55,6 +55,8 @@ def one(name: str) -> dict:
             rc, o = sh(f'./check {c} --tier quick', cwd=V, env=env)
             viol = [ln for ln in o.splitlines() if ln.startswith('VIOLATION')]
             out.setdefault('checks', {})[c] = {'rc': rc, 'violations': len(viol)}
+            if rc not in (0, 1):
+                out['checks'][c]['tail'] = o[-600:]
             if rc == 1 and viol and caught is None:
                 caught = (c, viol[0])
         if caught is None:
